@@ -4,6 +4,9 @@ from contracts import formulas as F
 
 from contracts import wrappers as W
 from contracts import grammar as G_PF
+from contracts import formulas as F_DEP
+from contracts import core as K_DEP
+from contracts import formulas as FO_DEP
 ID = "C04"
 LEVEL = "proof"
 TRUSTED = [
@@ -23,14 +26,15 @@ EXPLANATION = ("Deductive: density scaling is a relational obligation on two sym
 def units(tier):
     return ([N.U_CALC, N.U_CALC_SCALE, N.L_DENSITY_SCALING, N.L_COUNT_SCALING, F.L_SUM_HOMOGENEOUS,
             N.U_NS_WAVELENGTH, N.U_NS_ENERGY, N.U_WAVELENGTH, N.U_ENERGY, N.U_WAVELENGTH_V, N.U_ROUNDTRIP,
-            N.U_ANCHOR_E, N.U_ANCHOR_W, N.U_ANCHOR_V, N.U_SBW_PLAIN, N.U_SBW_TABLE] + F.U_FORMULA_OF_FORMULA + [F.U_FORMULA_NEUTRON_SLD]) + [W.U_NSF_NEUTRON_SLD] + [N.U_SUM_PIECE, N.U_COMPUTE_1, N.U_COMPUTE_2, N.U_COMPUTE_3] + N.U_COMPOSITE_OUTER + G_PF.U_PARSE_FORMULA
+            N.U_ANCHOR_E, N.U_ANCHOR_W, N.U_ANCHOR_V, N.U_SBW_PLAIN, N.U_SBW_TABLE] + F.U_FORMULA_OF_FORMULA + [F.U_FORMULA_NEUTRON_SLD]) + [W.U_NSF_NEUTRON_SLD] + [N.U_SUM_PIECE, N.U_COMPUTE_1, N.U_COMPUTE_2, N.U_COMPUTE_3] + N.U_COMPOSITE_OUTER + G_PF.U_PARSE_FORMULA + ([K_DEP.L_ATOM_IDENTITY] + [F_DEP.U_COUNT_ATOMS, F_DEP.U_ATOMS]) + ([K_DEP.U_CHANGE_TABLE, FO_DEP.U_CHANGE_TABLE_ATOM, FO_DEP.U_CHANGE_TABLE_STRUCT])
 
 
 def runner_tasks(tier):
     return [{"module": "c04", "task": "relations", "kind": "bounded", "clause": "all relations and output shapes, in floats"},
             {"module": "c07", "task": "energy_tables", "kind": "eval", "clause": "energy-dependent tables: one strictly increasing wavelength node per tabulated energy (vector calls interpolate on this axis)"},
             {"module": "stateful", "task": "C04", "name": "stateful", "kind": "bounded", "clause": "deprecated Formula.neutron_sld method vs nsf.neutron_sld; argument arrays untouched; regrouped strings and the composite calculator; results for a string do not depend on what other callers did to their parse of it"},
-            {"module": "stateful", "task": "C03", "name": "stateful C03", "kind": "bounded", "clause": "vector = scalar entry-wise for every numeric type and array layout (incl. descending and unsorted)"}]
+            {"module": "stateful", "task": "C03", "name": "stateful C03", "kind": "bounded", "clause": "vector = scalar entry-wise for every numeric type and array layout (incl. descending and unsorted)"},
+            {"module": "independence", "task": "observations", "name": "independence", "kind": "bounded", "arg": {"tags": ["C04"]}, "clause": "fixed observations give the same value as the first use of the library in a fresh interpreter, in a warmed-up interpreter (twice) and in reverse order, and have their documented value", "timeout": 900}]
 
 
 REPLAY = {'module': 'c04', 'task': 'replay'}
